@@ -78,12 +78,14 @@ def histories(ctx):
     n = ctx.pick(16, 150)
     runs = [
         ("singles", gen_cfg(paths=ctx.pick('{"a"}', ALL_PATHS)), None, False),
-        ("rootonly", gen_cfg(paths=ctx.pick('{"a", "d"}', ALL_PATHS), modes='{"incskip"}', flags=ctx.pick('{"none"}', ALL_FLAGS),
+        ("rootonly", gen_cfg(paths=ctx.pick('{"a", "d"}', ALL_PATHS), modes='{"incskip"}', flags='{"none"}',
                              targets=ctx.pick('{"dot", "list"}', '{"dot", "list", "deep"}')), None, False),
-        ("readerr", gen_cfg(plan=ctx.pick("Plan00", "Plan01"), modes=ctx.pick('{"inc"}', '{"inc", "incskip"}'), flags='{"none"}', targets=ALL_TARGETS,
+        ("readerr", gen_cfg(plan="Plan00", modes=ctx.pick('{"inc"}', '{"inc", "incskip"}'), flags='{"none"}', targets=ALL_TARGETS,
                             bigs="{TRUE}", faults='{"readerr"}', maxv=2), None, True),
         ("damage", gen_cfg(plan="Plan00", modes=ctx.pick('{"inc"}', '{"inc", "incskip"}'), flags='{"none"}', targets=ALL_TARGETS,
                            bigs=ctx.pick("{FALSE}", "{FALSE, TRUE}"), faults='{"treeloss", "dataloss"}', maxv=5), None, True),
+        ("readerr2", gen_cfg(paths='{"a", "b"}', plan="Plan01", modes='{"inc"}', flags='{"none"}', targets='{"dir", "dot"}',
+                             bigs="{TRUE}", faults='{"readerr"}', maxv=1), None, True),
         ("sim", gen_cfg(plan=ctx.pick("Plan3333", "Plan33333"), modes='{"inc", "incskip", "force"}', targets=ALL_TARGETS, bigs="{FALSE, TRUE}",
                         faults=ALL_FAULTS, maxv=5), n, False),
     ]
@@ -100,11 +102,13 @@ def histories(ctx):
         if only_faulty:
             hs = [h for h in hs if any(o["op"] == "backup" and o["fault"] != "none" for o in json.loads(h)["ops"])]
         return cls, hs, r["dir"]
+    if not th:
+        runs = [r for r in runs if r[0] != "readerr2"]   # thorough only: read error x every single edit (two files, two styles)
     with cf.ThreadPoolExecutor(max_workers=5) as ex:
         got = list(ex.map(one, runs))
     counts, out, seen = {}, [], set()
     for cls, hs, d in got:
-        if len(hs) < {"singles": 30, "rootonly": 20, "readerr": 8, "damage": 10, "sim": n // 2}[cls]:
+        if len(hs) < {"singles": 30, "rootonly": 20, "readerr": 8, "readerr2": 20, "damage": 10, "sim": n // 2}[cls]:
             raise verif.MachineryError("TLC produced only %d %s histories, see %s" % (len(hs), cls, d))
         k = 0
         for h in hs:
